@@ -64,6 +64,12 @@ func poisonConfig(cfg *cors.Config, tag string) {
 	cfg.Credentialed = !cfg.Credentialed
 	cfg.MaxAgeInSeconds = 77
 	cfg.PreflightSuccessStatus = 299
+	// every scalar of the embedded ExtraConfig as well (lesson of seeded change C12-i: a retained pointer to the
+	// caller's struct instead of a retained slice)
+	cfg.PrivateNetworkAccess = !cfg.PrivateNetworkAccess
+	cfg.PrivateNetworkAccessInNoCORSModeOnly = !cfg.PrivateNetworkAccessInNoCORSModeOnly && !cfg.PrivateNetworkAccess
+	cfg.DangerouslyTolerateInsecureOrigins = !cfg.DangerouslyTolerateInsecureOrigins
+	cfg.DangerouslyTolerateSubdomainsOfPublicSuffixes = !cfg.DangerouslyTolerateSubdomainsOfPublicSuffixes
 }
 
 // poisonHandler is a wrapped handler that overwrites in place every element of every
